@@ -8,14 +8,14 @@ open Torf Torf.Magnet
 
 /-! ### acceptance language of the three entry points -/
 
-/-- `Magnet.xt = v` (and `Magnet(v)`, which is the same setter on a fresh object), from every
-    prior state: accepted iff `v` is a valid hash optionally prefixed by `urn:btih:`; what is
-    stored is the hash without the prefix.  Hypothesis: `v` contains none of the four non-ASCII
-    characters that `re.IGNORECASE` folds onto ASCII letters (finding D14f). -/
-theorem C14_accept_iff_xt_partial (st : HState) (v : Str) (h : NoFold v = true) :
+/-- `Magnet.xt = v` (and `Magnet(v)`, which is the same setter on a fresh object), for **every**
+    string and from every prior state: accepted iff `v` is a valid hash (40 hex or 32 base32 ASCII
+    characters, any case) optionally prefixed by `urn:btih:`; what is stored is the hash without
+    the prefix. -/
+theorem C14_accept_iff_xt (st : HState) (v : Str) :
     ((setXt st v).1 = none ↔ xtAccepts v = true) ∧
     ((setXt st v).1 = none → (setXt st v).2 = some (xtStored v)) := by
-  have hs := infohashRe_isSome_noFold v h
+  have hs := infohashRe_isSome v
   unfold setXt xtAccepts xtStored
   cases h1 : infohashRe v with
   | some g =>
@@ -27,43 +27,41 @@ theorem C14_accept_iff_xt_partial (st : HState) (v : Str) (h : NoFold v = true) 
     have hv : validHash v = false := by simpa using hs.symm
     cases h2 : xtRe v with
     | some g =>
-      have := (xtRe_noFold v g h).mp h2
+      have := (xtRe_eq_some v g).mp h2
       simp [hv, this.1, this.2.1, this.2.2]
     | none =>
       have : ¬ (hasUrn v = true ∧ validHash (v.drop 9) = true) := by
         rintro ⟨a, b⟩
-        have := (xtRe_noFold v (v.drop 9) h).mpr ⟨a, b, rfl⟩
+        have := (xtRe_eq_some v (v.drop 9)).mpr ⟨a, b, rfl⟩
         rw [h2] at this; cases this
       simp only [hv, Bool.false_or, Bool.and_eq_true]
       simp [this]
 
 /-- the constructor is the xt setter on an object that holds nothing yet -/
-theorem C14_accept_iff_constructor_partial (v : Str) (h : NoFold v = true) :
+theorem C14_accept_iff_constructor (v : Str) :
     ((construct v).1 = none ↔ xtAccepts v = true) ∧
     ((construct v).1 = none → (construct v).2 = some (xtStored v)) :=
-  C14_accept_iff_xt_partial none v h
+  C14_accept_iff_xt none v
 
-/-- `Magnet.infohash = v`: accepted iff `v` is a valid hash (no prefix allowed here); stored
-    unchanged. -/
-theorem C14_accept_iff_infohash_partial (st : HState) (v : Str) (h : NoFold v = true) :
+/-- `Magnet.infohash = v`, every string, every prior state: accepted iff `v` is a valid hash (no
+    prefix allowed here); stored unchanged. -/
+theorem C14_accept_iff_infohash (st : HState) (v : Str) :
     ((setInfohash st v).1 = none ↔ infohashAccepts v = true) ∧
     ((setInfohash st v).1 = none → (setInfohash st v).2 = some v) := by
-  have hs := infohashRe_isSome_noFold v h
+  have hs := infohashRe_isSome v
   unfold setInfohash infohashAccepts
   cases h1 : infohashRe v with
   | some g => rw [h1] at hs; simp [← hs]
   | none => rw [h1] at hs; simp [← hs]
 
-/-- The full statement (all strings) is falsified by the code: `re.IGNORECASE` … -/
-def C14_accept_iff_full : Prop :=
-  ∀ (st : HState) (v : Str), (setXt st v).1 = none ↔ xtAccepts v = true
-
-/-- … accepts 32 Kelvin signs (U+212A) as a base32 hash. -/
-theorem C14_accept_iff_counterexample : ¬ C14_accept_iff_full := by
-  intro h
-  have := (h none (List.replicate 32 (Char.ofNat 0x212a))).mp (by decide)
-  revert this
-  decide
+/-- regression for the repaired finding D14f: the characters that `re.IGNORECASE` alone folds onto
+    ASCII letters are rejected — 32 Kelvin signs (U+212A) are no base32 hash, `urn:btİh:` (U+0130)
+    is no prefix — by both setters, and the previous value stays. -/
+example : setXt (some ['x']) (List.replicate 32 (Char.ofNat 0x212a)) = (some .magnet, some ['x']) ∧
+    setInfohash (some ['x']) (List.replicate 32 (Char.ofNat 0x212a)) = (some .magnet, some ['x']) ∧
+    xtAccepts (List.replicate 32 (Char.ofNat 0x212a)) = false ∧
+    (setXt none ("urn:bt".toList ++ Char.ofNat 0x130 :: "h:".toList ++ List.replicate 40 'a')).1 = some .magnet ∧
+    (setXt none (List.replicate 31 'a' ++ [Char.ofNat 0x17f])).1 = some .magnet := by decide
 
 /-- every rejected assignment raises the magnet error and leaves the previous value intact —
     all strings, all prior states, all three entry points -/
@@ -325,49 +323,61 @@ theorem C14_xl (st : Option Int) (v : Option IntResult) :
     · simp [hi]
     · simp [hi]; omega
 
-/-- URL lists (`tr`, `ws`), URL validity being a parameter: a list with a malformed item is
-    rejected with URLError and the field keeps its previous content — always.  If every item
-    that is valid stays valid when its spaces are replaced by '+' (`utils.URL` validates its
-    argument but stores the replaced string, and `insert` coerces a second time — finding D14g),
-    the list is accepted iff all items are valid and then holds them with ' ' → '+', in order,
-    without duplicates.  Single URLs (`xs`, `as_`) likewise. -/
+/-- URL fields, URL validity (`utils.is_url`) being an arbitrary predicate.  A URL is accepted iff it
+    is valid as given **and** in the form that is stored (spaces replaced by '+').  Lists (`tr`,
+    `ws`): accepted iff every item is; a rejected list raises URLError and the field keeps its
+    previous content (atomic: the second coercion inside `insert`, after the list was cleared, can
+    never fail); an accepted list holds the items with ' ' → '+', in order, each at its first
+    occurrence only, and every stored item is valid for `is_url` and free of spaces.  Single URLs
+    (`xs`, `as_`) likewise. -/
 theorem C14_urls (isUrl : Str → Bool) (st : List Str) (vs : List Str) (st1 : Option Str) (v : Str) :
-    (vs.all isUrl = false → setUrls isUrl st vs = (some .url, st)) ∧
-    ((∀ v ∈ vs, isUrl v = true → isUrl (plusForSpace v) = true) →
-      ((setUrls isUrl st vs).1 = none ↔ vs.all isUrl = true) ∧
-      ((setUrls isUrl st vs).1 = none →
-        (setUrls isUrl st vs).2.Nodup ∧
-        ∀ u, u ∈ (setUrls isUrl st vs).2 ↔ u ∈ vs.map plusForSpace)) ∧
-    (setUrl isUrl st1 (some v) = if isUrl v then (none, some (plusForSpace v)) else (some .url, st1)) ∧
+    ((setUrls isUrl st vs).1 = none ↔ vs.all (urlAccepts isUrl) = true) ∧
+    ((setUrls isUrl st vs).1 ≠ none → setUrls isUrl st vs = (some .url, st)) ∧
+    ((setUrls isUrl st vs).1 = none →
+      (setUrls isUrl st vs).2 = keepFirst (vs.map plusForSpace) ∧
+      ∀ u ∈ (setUrls isUrl st vs).2, isUrl u = true ∧ ' ' ∉ u) ∧
+    (setUrl isUrl st1 (some v) =
+      if urlAccepts isUrl v then (none, some (plusForSpace v)) else (some .url, st1)) ∧
     (setUrl isUrl st1 none = (none, none)) := by
-  unfold setUrls
-  rw [mapM_mkUrl]
-  refine ⟨?_, ?_, ?_, rfl⟩
-  · intro h; simp [h]
-  · intro hstab
-    by_cases h : vs.all isUrl = true
-    · simp only [h, if_true, iff_true]
-      have hall : ∀ u ∈ vs.map plusForSpace, isUrl u = true ∧ plusForSpace u = u := by
+  have hset : setUrls isUrl st vs =
+      if vs.all (urlAccepts isUrl) then (none, keepFirst (vs.map plusForSpace)) else (some .url, st) := by
+    unfold setUrls
+    rw [mapM_mkUrl]
+    by_cases h : vs.all (urlAccepts isUrl) = true
+    · simp only [h, if_true]
+      rw [insertAll_stable isUrl [] _ (by
         intro u hu
         obtain ⟨w, hw, rfl⟩ := List.mem_map.mp hu
-        exact ⟨hstab w hw (List.all_eq_true.mp h w hw), plusForSpace_idem w⟩
-      rw [insertAll_stable isUrl [] _ hall]
-      have := dedup_spec [] (vs.map plusForSpace) List.nodup_nil
-      exact ⟨rfl, fun _ => ⟨this.1, fun u => by rw [this.2 u]; simp⟩⟩
+        exact mkUrl_coerced isUrl w (List.all_eq_true.mp h w hw)), dedup_nil]
     · simp [h]
-  · unfold setUrl mkUrl; by_cases hv : isUrl v = true <;> simp [hv]
+  rw [hset]
+  refine ⟨?_, ?_, ?_, ?_, rfl⟩
+  · by_cases h : vs.all (urlAccepts isUrl) = true <;> simp [h]
+  · by_cases h : vs.all (urlAccepts isUrl) = true <;> simp [h]
+  · by_cases h : vs.all (urlAccepts isUrl) = true
+    · simp only [h, if_true, true_and, forall_const]
+      intro u hu
+      rw [mem_keepFirst] at hu
+      obtain ⟨w, hw, rfl⟩ := List.mem_map.mp hu
+      have := List.all_eq_true.mp h w hw
+      simp only [urlAccepts, Bool.and_eq_true] at this
+      refine ⟨this.2, ?_⟩
+      intro hm
+      obtain ⟨c, _, hc⟩ := List.mem_map.mp hm
+      by_cases hcs : c = ' ' <;> simp [hcs] at hc
+    · simp [h]
+  · simp only [setUrl, mkUrl_eq]; by_cases hv : urlAccepts isUrl v = true <;> simp [hv]
 
-/-- Without the stability hypothesis the full statement fails: … -/
-def C14_urls_full : Prop :=
-  ∀ (isUrl : Str → Bool) (st vs : List Str),
-    (setUrls isUrl st vs).1 ≠ none → (setUrls isUrl st vs).2 = st
+/-- what `keepFirst` means: no duplicates, the same members -/
+theorem C14_keepFirst (us : List Str) :
+    (keepFirst us).Nodup ∧ ∀ u, u ∈ keepFirst us ↔ u ∈ us :=
+  ⟨keepFirst_nodup us, mem_keepFirst us⟩
 
-/-- … a URL that is valid only with its leading space passes the first validation, the list is
-    cleared and partly refilled, then the second coercion raises (D14g). -/
-theorem C14_urls_counterexample : ¬ C14_urls_full := by
-  intro h
-  have := h (fun s => s = [' ', 'a'] || s = ['b']) [['c']] [['b'], [' ', 'a']] (by decide)
-  revert this
+/-- regression for the repaired findings D14g / D13e: a URL that is valid only with its leading
+    space (`is_url(' a')` but not `is_url('+a')`) is rejected and the previous trackers stay;
+    before the repair the list was cleared, partly refilled and URLError raised. -/
+example : setUrls (fun s => s = [' ', 'a'] || s = ['b']) [['c']] [['b'], [' ', 'a']] = (some .url, [['c']]) ∧
+    setUrl (fun s => s = [' ', 'a'] || s = ['b']) (some ['c']) (some [' ', 'a']) = (some .url, some ['c']) := by
   decide
 
 /-! ### conversions inside a history: always of the value held *now* -/
@@ -383,70 +393,182 @@ theorem C14_xtStored_valid (v : Str) (h : xtAccepts v = true) : validHash (xtSto
     simp only [Bool.false_or, Bool.and_eq_true] at h
     simpa using h.2
 
-/-- On one object, in any history of assignments (either setter, accepted or rejected) and
-    conversions (`torrent()`, the tracker request and the comparison inside `get_info()`): every
-    assignment is judged on its own, and every conversion yields — without error — the
-    lower-case 40-digit hexadecimal form of the number denoted by the value that was accepted
-    last, no matter what was converted earlier.  Hypotheses: the object starts with a valid hash
-    (or nothing) and no assigned value contains a character that `re.IGNORECASE` folds (D14f). -/
-theorem C14_convert_history (st : HState) (ops : List UseOp)
-    (hst : ∀ s, st = some s → validHash s = true) (hops : useNoFold ops = true) :
+/-- on an object that holds no metadata, `get_info` is the function `getInfo` of `C14_adopt_iff` /
+    `C14_adopt_sound` -/
+theorem C14_fetch_fresh (validate : Bool) (ih : Str) (srcs : List Served) (k : Nat) :
+    fetchLoop validate ih none srcs k =
+      (match getInfo validate ih srcs k with
+       | .raised e n => (some e, none, n)
+       | .adopted h n => (none, some h, n)
+       | .nothing n => (none, none, n)) :=
+  fetchLoop_none validate ih srcs k
+
+/-- one step of a history keeps the invariant "valid hash, adopted metadata denotes it" -/
+theorem C14_assign_spec (st : MState) (hst : StateOk st) (op : HashOp) :
+    stepM st op =
+      (match specAssign op with
+       | some s => (none, { hash := some s, info := if st.hash = some s then st.info else none })
+       | none => (some .magnet, st)) ∧
+    StateOk (stepM st op).2 := by
+  have key : stepM st op =
+      (match specAssign op with
+       | some s => (none, { hash := some s, info := if st.hash = some s then st.info else none })
+       | none => (some .magnet, st)) ∧
+      ∀ s, specAssign op = some s → validHash s = true := by
+    rw [stepM_eq]
+    cases op with
+    | xt v =>
+      obtain ⟨h1, h2⟩ := C14_accept_iff_xt st.hash v
+      simp only [stepHash, specAssign]
+      cases hacc : xtAccepts v with
+      | true =>
+        have e1 := h1.mpr hacc
+        have e2 := h2 e1
+        refine ⟨?_, by intro s hs; simp at hs; subst hs; exact C14_xtStored_valid v hacc⟩
+        simp only [e1, e2, if_true, true_and]
+        by_cases e : st.hash = some (xtStored v)
+        · simp [e]
+        · have e' : ¬ some (xtStored v) = st.hash := fun x => e x.symm
+          simp [e, e']
+      | false =>
+        have e1 : (setXt st.hash v).1 ≠ none := by
+          intro h; rw [h1.mp h] at hacc; cases hacc
+        have e2 := (C14_reject_keeps st.hash v).1 e1
+        simp [e2]
+    | infohash v =>
+      obtain ⟨h1, h2⟩ := C14_accept_iff_infohash st.hash v
+      simp only [stepHash, specAssign]
+      cases hacc : infohashAccepts v with
+      | true =>
+        have e1 := h1.mpr hacc
+        have e2 := h2 e1
+        refine ⟨?_, by intro s hs; simp at hs; subst hs; exact hacc⟩
+        simp only [e1, e2, if_true, true_and]
+        by_cases e : st.hash = some v
+        · simp [e]
+        · have e' : ¬ some v = st.hash := fun x => e x.symm
+          simp [e, e']
+      | false =>
+        have e1 : (setInfohash st.hash v).1 ≠ none := by
+          intro h; rw [h1.mp h] at hacc; cases hacc
+        have e2 := (C14_reject_keeps st.hash v).2 e1
+        simp [e2]
+  refine ⟨key.1, ?_⟩
+  rw [key.1]
+  cases hs : specAssign op with
+  | none => exact hst
+  | some s =>
+    refine ⟨by intro x hx; simp at hx; subst hx; exact key.2 s hs, ?_⟩
+    intro a ha
+    simp only at ha
+    by_cases e : st.hash = some s
+    · rw [if_pos e] at ha
+      obtain ⟨s', hs', rfl⟩ := hst.2 a ha
+      rw [e] at hs'; cases hs'
+      exact ⟨s, rfl, rfl⟩
+    · rw [if_neg e] at ha; cases ha
+
+/-- On one object, in any history of assignments (either setter, accepted or rejected, **any**
+    strings), conversions (`torrent()`) and validating metadata downloads (`get_info()` over any
+    list of sources): the code does exactly what the specification `specUse` says — every
+    assignment is judged on its own; every `torrent()` yields, without error, the lower-case
+    40-digit hexadecimal form of the number denoted by the value that was accepted last, no matter
+    what was converted or downloaded earlier; metadata is adopted only from a torrent whose infohash
+    denotes the hash held at that moment (else MetainfoError) and is forgotten as soon as another
+    hash is stored.  Hypotheses: the object starts with a valid hash (or nothing) and with metadata
+    that denotes it (or none) — what every constructed object satisfies; every `get_info()` of the
+    history validates. -/
+theorem C14_convert_history (st : MState) (ops : List UseOp)
+    (hst : StateOk st) (hops : useValidated ops = true) :
     runUse st ops = specUse st ops := by
   induction ops generalizing st with
   | nil => rfl
   | cons op ops ih =>
     cases op with
     | convert =>
-      simp only [useNoFold] at hops
-      simp only [runUse, specUse, ih st hst hops]
+      simp only [useValidated] at hops
+      simp only [runUse, specUse, ih st hst hops, convertM]
       cases st with
-      | none => rfl
-      | some s => simp only [C14_torrent_hash s (hst s rfl)]
+      | mk hash info =>
+        cases hash with
+        | none =>
+          cases info with
+          | none => rfl
+          | some a => obtain ⟨s, hs, _⟩ := hst.2 a rfl; cases hs
+        | some s =>
+          cases info with
+          | none => simp only [C14_torrent_hash s (hst.1 s rfl)]; rfl
+          | some a =>
+            obtain ⟨s', hs', rfl⟩ := hst.2 a rfl
+            cases hs'; rfl
     | assign a =>
-      cases a with
-      | xt v =>
-        simp only [useNoFold, Bool.and_eq_true] at hops
-        obtain ⟨h1, h2⟩ := C14_accept_iff_xt_partial st v hops.1
-        simp only [runUse, specUse, specAssign, stepHash]
-        cases hacc : xtAccepts v with
-        | true =>
-          have e1 := h1.mpr hacc
-          have e2 := h2 e1
-          simp only [if_true]
-          rw [e1, e2, ih (some (xtStored v)) (by intro s hs; cases hs; exact C14_xtStored_valid v hacc) hops.2]
-        | false =>
-          have e1 : (setXt st v).1 ≠ none := by
-            intro h; rw [h1.mp h] at hacc; cases hacc
-          have e2 := (C14_reject_keeps st v).1 e1
-          simp only [Bool.false_eq_true, if_false]
-          rw [e2, ih st hst hops.2]
-      | infohash v =>
-        simp only [useNoFold, Bool.and_eq_true] at hops
-        obtain ⟨h1, h2⟩ := C14_accept_iff_infohash_partial st v hops.1
-        simp only [runUse, specUse, specAssign, stepHash]
-        cases hacc : infohashAccepts v with
-        | true =>
-          have e1 := h1.mpr hacc
-          have e2 := h2 e1
-          simp only [if_true]
-          rw [e1, e2, ih (some v) (by intro s hs; cases hs; exact hacc) hops.2]
-        | false =>
-          have e1 : (setInfohash st v).1 ≠ none := by
-            intro h; rw [h1.mp h] at hacc; cases hacc
-          have e2 := (C14_reject_keeps st v).2 e1
-          simp only [Bool.false_eq_true, if_false]
-          rw [e2, ih st hst hops.2]
+      simp only [useValidated] at hops
+      obtain ⟨h1, h2⟩ := C14_assign_spec st hst a
+      simp only [runUse, specUse]
+      rw [ih _ h2 hops, h1]
+      cases specAssign a <;> rfl
+    | fetch v served =>
+      simp only [useValidated, Bool.and_eq_true] at hops
+      obtain ⟨rfl, hops⟩ := hops
+      simp only [runUse, specUse]
+      cases hh : st.hash with
+      | none => simp only [ih st hst hops]
+      | some s =>
+        have hv := hst.1 s hh
+        have hown := C14_torrent_hash s hv
+        have hinfo : ∀ a, st.info = some a → a = hexLower40 (hashVal s) := by
+          intro a ha
+          obtain ⟨s', hs', rfl⟩ := hst.2 a ha
+          rw [hh] at hs'; cases hs'; rfl
+        have hf := fetchLoop_spec s _ hown st.info hinfo served 0
+        simp only [hf]
+        rw [ih]
+        · cases hb : (specFetch (hexLower40 (hashVal s)) st.info.isSome served 0).2.1 <;> simp
+        · refine ⟨fun x hx => ?_, fun a ha => ?_⟩
+          · have : some s = some x := hx
+            cases this; exact hv
+          · refine ⟨s, rfl, ?_⟩
+            simp only at ha
+            split at ha
+            · cases ha; rfl
+            · cases ha
+        · exact hops
+
+/-- Regression for the repaired finding D14h, for every valid hash `b`, every other stored string
+    `a` and whatever metadata `x` the object held: after `infohash = b` the metadata is gone and
+    `torrent()` reports the 40-digit form of `b`. -/
+theorem C14_reassign_forgets (a b x : Str) (hb : validHash b = true) (hne : a ≠ b) :
+    (runUse { hash := some a, info := some x } [.assign (.infohash b), .assign (.xt b), .convert]).1 =
+      [.assigned none, .assigned none, .converted (.ok (hexLower40 (hashVal b))) false] := by
+  have hre : ∃ g, infohashRe b = some g := by
+    rw [← Option.isSome_iff_exists, infohashRe_isSome]; exact hb
+  obtain ⟨g, hg⟩ := hre
+  have hne' : ¬ some a = some b := fun h => hne (Option.some.inj h)
+  simp [runUse, stepM, setInfohashM, setXtM, setInfohashAttr, hg, hne', convertM, C14_torrent_hash b hb]
 
 /-! ### non-vacuity -/
 
 example : validHash ("ABCDEFabcdef0123456789abcdefABCDEF012345".toList) = true := by decide
 example : validHash ("vov2xk5lVOV2XK5LVOV2XK5LVOV2XK5L".toList) = true := by decide
-example : NoFold ("urn:btih:VOV2XK5LVOV2XK5LVOV2XK5LVOV2XK5L".toList) = true ∧
-    xtAccepts ("URN:btih:VOV2XK5LVOV2XK5LVOV2XK5LVOV2XK5L".toList) = true := by decide
+example : xtAccepts ("URN:btih:VOV2XK5LVOV2XK5LVOV2XK5LVOV2XK5L".toList) = true ∧
+    xtAccepts ("urn:btih:VOV2XK5LVOV2XK5LVOV2XK5LVOV2XK5".toList) = false ∧
+    infohashAccepts ("urn:btih:VOV2XK5LVOV2XK5LVOV2XK5LVOV2XK5L".toList) = false := by decide
 example : LowerHex40 ("abababababababababababababababababababab".toList) = true := by decide
-/-- hypotheses of `C14_convert_history` on the history convert → assign another hash → convert -/
-example : validHash ("abababababababababababababababababababab".toList) = true ∧
-    useNoFold [.convert, .assign (.infohash "CDCDCDCDCDCDCDCDCDCDCDCDCDCDCDCDCDCDCDCD".toList),
-               .assign (.xt "junk".toList), .convert] = true := by decide
+/-- `urlAccepts` is satisfiable and refutable, with and without spaces -/
+example : urlAccepts (fun s => s.take 4 = "http".toList) "http://a/b c".toList = true ∧
+    urlAccepts (fun s => s.take 4 = "http".toList) " http://a/b".toList = false := by decide
+/-- hypotheses of `C14_convert_history` on: download (adopted) → torrent() → assign another hash →
+    a rejected assignment → torrent() → download -/
+example : StateOk { hash := some "abababababababababababababababababababab".toList } ∧
+    useValidated [.fetch true [.connError, .torrent "abababababababababababababababababababab".toList true],
+               .convert, .assign (.infohash "CDCDCDCDCDCDCDCDCDCDCDCDCDCDCDCDCDCDCDCD".toList),
+               .assign (.xt "junk".toList), .convert, .fetch true [.unreadable]] = true := by
+  refine ⟨⟨?_, ?_⟩, by decide⟩
+  · intro s hs; cases hs; decide
+  · intro a ha; cases ha
+/-- … and an object that holds adopted metadata satisfies `StateOk` too -/
+example : StateOk { hash := some "ABABABABABABABABABABABABABABABABABABABAB".toList,
+                    info := some (hexLower40 (hashVal "ABABABABABABABABABABABABABABABABABABABAB".toList)) } :=
+  ⟨by intro s hs; cases hs; decide, by intro a ha; exact ⟨_, rfl, (Option.some.inj ha).symm⟩⟩
 
 end Torf.C14
